@@ -27,16 +27,16 @@ N == UNION {{Case(ty, 0, cs, n, b, le, FALSE, "builder") :
 R == {Case(ty, 0, Required(ty), 1, B_u, le, TRUE, "builder") : ty \in KnownTypes, le \in BOOLEAN}
 Thin == UNION {{Case(ty, fl, cs, n, b, le, FALSE, "builder") :
                fl \in {0, 5}, n \in {1, 3}, cs \in {Required(ty), Settable(ty)}, b \in Bodies, le \in BOOLEAN} : ty \in KnownTypes}
-(* quick tier: every field subset with every flag combination on one body in both byte
-   orders; every field subset with no body and with an fd; every body with the smallest and
+(* quick tier: every field subset with every flag combination on one body (little endian);
+   every field subset with an fd body (big endian); every body with the smallest and
    the largest field set in all three name-length variants; the header route with
    NO_REPLY_EXPECTED alone and all flags on every field subset, and every flag combination on
    the smallest header *)
 Q == UNION {
-       {Case(ty, fl, cs, 1, B_su, le, FALSE, "builder") : fl \in BuilderFlags(ty), cs \in FieldSets(ty), le \in BOOLEAN}
-  \cup {Case(ty, 0, cs, 1, b, le, FALSE, "builder") : cs \in FieldSets(ty), b \in {B_none, B_h}, le \in BOOLEAN}
+       {Case(ty, fl, cs, 1, B_su, TRUE, FALSE, "builder") : fl \in BuilderFlags(ty), cs \in FieldSets(ty)}
+  \cup {Case(ty, 0, cs, 1, B_h, FALSE, FALSE, "builder") : cs \in FieldSets(ty)}
   \cup {Case(ty, 0, cs, n, b, le, FALSE, "builder") : cs \in {Required(ty), Settable(ty)}, n \in 1..3, b \in Bodies, le \in BOOLEAN}
-  \cup {Case(ty, fl, cs, 1, B_su, TRUE, FALSE, "header") : fl \in {1, 7}, cs \in FieldSets(ty)}
+  \cup {Case(ty, fl, cs, 1, B_su, FALSE, FALSE, "header") : fl \in {1, 7}, cs \in FieldSets(ty)}
   \cup {Case(ty, fl, Required(ty), 1, B_none, le, FALSE, "header") : fl \in 0..7, le \in BOOLEAN}
   : ty \in KnownTypes}
 Cases == CASE SPACE = "full" -> A \cup H \cup N \cup R [] SPACE = "quick" -> Q \cup R [] OTHER -> Thin
